@@ -13,6 +13,7 @@
 package main
 
 import (
+	"encoding/json"
 	"fmt"
 	"math"
 	"math/rand"
@@ -47,9 +48,10 @@ func (o obj) geo() verifapi.Geo {
 }
 
 type filters struct {
-	match   string // "" = none
-	where   *[3]int
-	wherein []int // values for field g
+	match     string // "" = none
+	where     *[3]int
+	wherein   []int   // values for field g
+	whereeval *[2]int // Lua filter: field index (f / g), threshold: (FIELDS.<field> or 0) >= threshold
 }
 
 func (f filters) args() []string {
@@ -66,10 +68,15 @@ func (f filters) args() []string {
 			a = append(a, strconv.Itoa(v))
 		}
 	}
+	if f.whereeval != nil {
+		a = append(a, "WHEREEVAL", "return (FIELDS."+[]string{"f", "g"}[f.whereeval[0]]+" or 0) >= tonumber(ARGV[1])", "1", strconv.Itoa(f.whereeval[1]))
+	}
 	return a
 }
 
-func (f filters) empty() bool { return f.match == "" && f.where == nil && f.wherein == nil }
+func (f filters) empty() bool {
+	return f.match == "" && f.where == nil && f.wherein == nil && f.whereeval == nil
+}
 
 // accept is pushObject's testObject computed on the client: glob on the id (SEARCH: on the
 // value), WHERE min <= field <= max with a missing field reading 0, WHEREIN membership.
@@ -101,6 +108,11 @@ func (f filters) accept(o obj, matchValues bool) bool {
 			return false
 		}
 	}
+	if f.whereeval != nil {
+		if o.fields[[]string{"f", "g"}[f.whereeval[0]]] < f.whereeval[1] {
+			return false
+		}
+	}
 	return true
 }
 
@@ -115,6 +127,7 @@ type query struct {
 	lon   float64
 	rad   float64 // < 0: none
 	sdist bool    // DISTANCE keyword
+	out   string  // output kind: "" = IDS, OBJECTS, POINTS, BOUNDS, HASHES, COUNT
 }
 
 func (q query) argv(cursor, limit string, flt filters) []string {
@@ -135,7 +148,14 @@ func (q query) argv(cursor, limit string, flt filters) []string {
 	if q.cmd == "nearby" && q.sdist {
 		a = append(a, "DISTANCE")
 	}
-	a = append(a, "IDS")
+	switch q.out {
+	case "":
+		a = append(a, "IDS")
+	case "HASHES":
+		a = append(a, "HASHES", "7")
+	default:
+		a = append(a, q.out)
+	}
 	a = append(a, q.area...)
 	return a
 }
@@ -449,6 +469,9 @@ func randFilters(rng *rand.Rand, ids []string, vals []string, matchValues bool) 
 			f.wherein = append(f.wherein, rng.Intn(4))
 		}
 	}
+	if rng.Intn(5) == 0 {
+		f.whereeval = &[2]int{rng.Intn(2), rng.Intn(4)}
+	}
 	return f
 }
 
@@ -462,6 +485,161 @@ type ctx struct {
 	d     *dataset
 	round int
 	rng   *rand.Rand
+	cj    *srv.Conn // a second connection switched to OUTPUT json
+}
+
+// elemPage: one reply in any output kind / protocol: per item its id and a canonical rendering of
+// the whole item (without the page-dependent "fields" columns of JSON replies)
+type elemPage struct {
+	ids    []string
+	elems  []string
+	cursor string
+}
+
+func (p elemPage) view() map[string]interface{} {
+	return map[string]interface{}{"ids": p.ids, "cursor": p.cursor}
+}
+
+func doElems(c *srv.Conn, args []string) (elemPage, error) {
+	v := c.MustDo(args...)
+	if v.Kind != '*' || len(v.Array) != 2 || v.Array[0].Kind != ':' || v.Array[1].Kind != '*' {
+		return elemPage{}, fmt.Errorf("unexpected reply %s to %q", v.String(), args)
+	}
+	p := elemPage{cursor: strconv.FormatUint(uint64(v.Array[0].Int), 10), ids: []string{}}
+	for _, e := range v.Array[1].Array {
+		id := e.Str
+		if e.Kind == '*' {
+			if len(e.Array) < 1 {
+				return elemPage{}, fmt.Errorf("empty item in %s", v.String())
+			}
+			id = e.Array[0].Str
+		}
+		p.ids = append(p.ids, id)
+		p.elems = append(p.elems, e.String())
+	}
+	return p, nil
+}
+
+func doJSON(c *srv.Conn, args []string) (elemPage, error) {
+	v := c.MustDo(args...)
+	if v.Kind != '$' {
+		return elemPage{}, fmt.Errorf("unexpected reply %s to %q in JSON mode", v.String(), args)
+	}
+	var doc map[string]json.RawMessage
+	if err := json.Unmarshal([]byte(v.Str), &doc); err != nil {
+		return elemPage{}, fmt.Errorf("reply to %q is not a JSON document: %v: %s", args, err, v.Str)
+	}
+	if string(doc["ok"]) != "true" {
+		return elemPage{}, fmt.Errorf("reply to %q: %s", args, v.Str)
+	}
+	var cur json.Number
+	if err := json.Unmarshal(doc["cursor"], &cur); err != nil {
+		return elemPage{}, fmt.Errorf("no cursor member in %s", v.Str)
+	}
+	p := elemPage{cursor: cur.String(), ids: []string{}}
+	var items []json.RawMessage
+	for _, k := range []string{"ids", "objects", "points", "bounds", "hashes"} {
+		if raw, ok := doc[k]; ok {
+			if err := json.Unmarshal(raw, &items); err != nil {
+				return elemPage{}, fmt.Errorf("member %s is not an array in %s", k, v.Str)
+			}
+		}
+	}
+	for _, it := range items {
+		var id string
+		if json.Unmarshal(it, &id) == nil {
+			p.ids = append(p.ids, id)
+			p.elems = append(p.elems, string(it))
+			continue
+		}
+		var m map[string]json.RawMessage
+		if err := json.Unmarshal(it, &m); err != nil {
+			return elemPage{}, fmt.Errorf("item %s is neither a string nor an object", string(it))
+		}
+		if err := json.Unmarshal(m["id"], &id); err != nil {
+			return elemPage{}, fmt.Errorf("item %s has no id", string(it))
+		}
+		delete(m, "fields") // columns follow the page's own "fields" header
+		b, _ := json.Marshal(m)
+		p.ids = append(p.ids, id)
+		p.elems = append(p.elems, string(b))
+	}
+	return p, nil
+}
+
+// runOutput: the same query in another output kind (OBJECTS / POINTS / BOUNDS / HASHES) and / or
+// in JSON mode: the pages concatenate to the unlimited reply item by item, and every page's ids and
+// cursor are those of Model.Cursor.page — the output kind takes no part in numberItems / hitLimit.
+func (x *ctx) runOutput(q query, src source, kind string, jsonMode bool, idsUnl []string) {
+	q.out = kind
+	fetch := func(args []string) (elemPage, error) {
+		if jsonMode {
+			return doJSON(x.cj, args)
+		}
+		return doElems(x.c, args)
+	}
+	tag := kind
+	if tag == "" {
+		tag = "IDS"
+	}
+	if jsonMode {
+		tag += "-json"
+	}
+	unl, err := fetch(q.argv("", big, q.flt))
+	if err != nil {
+		x.fail("oracle", "cursor-reply-shape", err.Error(), q, map[string]interface{}{"output": tag}, nil, nil)
+		return
+	}
+	if join(unl.ids) != join(idsUnl) || unl.cursor != "0" {
+		x.fail("oracle", "cursor-output-kind", "the unlimited reply in output "+tag+" lists other ids than the IDS reply (or a non-zero cursor)", q, map[string]interface{}{"output": tag}, unl.view(), idsUnl)
+		return
+	}
+	n := src.n
+	var ls []int
+	seen := map[int]bool{}
+	for _, L := range []int{1, 2, 3, n / 2, n - 1, n, n + 1, 7, 255, 256} {
+		if L >= 1 && L <= n+1 && !seen[L] && (n <= 60 || L >= 7) {
+			seen[L] = true
+			ls = append(ls, L)
+		}
+	}
+	for _, L := range ls {
+		lim := strconv.Itoa(L)
+		cursor := "0"
+		var all []string
+		npages, nonempty := 0, 0
+		for {
+			p, err := fetch(q.argv(cursor, lim, q.flt))
+			if err != nil {
+				x.fail("oracle", "cursor-reply-shape", err.Error(), q, map[string]interface{}{"output": tag, "limit": L, "cursor": cursor}, nil, nil)
+				return
+			}
+			npages++
+			if len(p.ids) > 0 {
+				nonempty++
+			}
+			mi, mc, raw := x.modelPage(src, lim, cursor)
+			if mc != p.cursor || join(mi) != join(p.ids) {
+				x.fail("correspondence", "cursor-page-model", fmt.Sprintf("output %s: page (LIMIT %d CURSOR %s) differs from Model.Cursor.page", tag, L, cursor), q,
+					map[string]interface{}{"output": tag, "limit": L, "cursor": cursor}, p.view(), raw)
+			}
+			all = append(all, p.elems...)
+			if p.cursor == "0" {
+				break
+			}
+			if npages > n+2 {
+				x.fail("oracle", "cursor-no-termination", fmt.Sprintf("output %s LIMIT %d: more than n+2 = %d pages without a 0 cursor", tag, L, n+2), q, map[string]interface{}{"output": tag, "limit": L}, nil, nil)
+				return
+			}
+			cursor = p.cursor
+		}
+		x.r.Count(fmt.Sprintf("%d/%s/%s/L%d", x.round, strings.Join(q.argv("", "", q.flt), " "), tag, L), nonempty >= 2)
+		x.r.Dist("output:" + tag)
+		if join(all) != join(unl.elems) {
+			x.fail("oracle", "cursor-pages-"+q.cmd, fmt.Sprintf("output %s LIMIT %d: the concatenated pages differ item by item from the unlimited reply", tag, L), q,
+				map[string]interface{}{"output": tag, "limit": L}, all, unl.elems)
+		}
+	}
 }
 
 func (x *ctx) fail(kind, sig, what string, q query, extra map[string]interface{}, impl, mod interface{}) {
@@ -755,6 +933,10 @@ func (x *ctx) runQuery(q query, qi int) {
 			r.Sample(10, map[string]interface{}{"query": qs, "limit": L, "pages": npages, "unlimited": unl.ids, "entries": src.n})
 		}
 	}
+	// other output kinds and the JSON protocol through the same pushObject path
+	kinds := []string{"OBJECTS", "POINTS", "BOUNDS", "HASHES"}
+	x.runOutput(q, src, kinds[(qi+x.round)%4], false, unl.ids)
+	x.runOutput(q, src, []string{"", "OBJECTS", "POINTS", "", "HASHES", "BOUNDS"}[(qi+x.round)%6], true, unl.ids)
 	// arbitrary cursors: values the server never returned, beyond the end, 2^64-1
 	curs := []string{strconv.Itoa(src.n), strconv.Itoa(src.n + 3), "18446744073709551615", "18446744073709551614"}
 	for i := 0; i < 3; i++ {
@@ -940,6 +1122,9 @@ func fixedQueries() []query {
 		{cmd: "nearby", key: "pts", sdist: true, flt: filters{where: w1}, area: pt(2, 1), lat: 2, lon: 1, rad: -1},
 		{cmd: "nearby", key: "pts", sdist: true, area: append(pt(2, 1), "200000"), lat: 2, lon: 1, rad: 200000},
 		{cmd: "nearby", key: "pts", flt: filters{match: "b*"}, area: append(pt(2, 1), "400000"), lat: 2, lon: 1, rad: 400000},
+		{cmd: "scan", key: "pts", flt: filters{whereeval: &[2]int{0, 1}}, rad: -1},
+		{cmd: "search", key: "strs", desc: 2, flt: filters{whereeval: &[2]int{0, 2}}, rad: -1},
+		{cmd: "nearby", key: "pts", flt: filters{whereeval: &[2]int{1, 2}, where: w1}, area: pt(1, 1), lat: 1, lon: 1, rad: -1},
 		{cmd: "scan", key: "nosuchkey", rad: -1},
 	}
 }
@@ -1002,7 +1187,12 @@ func runC11(r *hx.Result, cfg hx.Config) {
 			defer s.Kill()
 			c := s.MustDial()
 			defer c.Close()
-			x := &ctx{r: r, cfg: cfg, c: c, drv: drv, round: round, rng: rng}
+			cj := s.MustDial()
+			defer cj.Close()
+			if v := cj.MustDo("OUTPUT", "json"); v.IsErr() {
+				panic("OUTPUT json: " + v.String())
+			}
+			x := &ctx{r: r, cfg: cfg, c: c, drv: drv, round: round, rng: rng, cj: cj}
 			mode := "random"
 			switch round {
 			case 0:
